@@ -35,12 +35,12 @@ ASSUMPTIONS = ['the uncached call is the reference (functions used are determini
                'entries that unpickle without error to a value of the right structure are outside the property (cannot be told from a valid entry without a checksum)',
                'mesh.parsegmsh not exercised (meshio not installed); a parsegmsh-shaped dict payload is used instead']
 _SCALE = float(os.environ.get('C18_BUDGET_SCALE', '1') or 1)     # development knob for an overloaded machine; not used by the harness
-BUDGET_S = {'quick': 75 * _SCALE, 'thorough': 1300 * _SCALE}
+BUDGET_S = {'quick': 70 * _SCALE, 'thorough': 1300 * _SCALE}
 GRACE_S = 60
 
 FINDING = 'C18-torn-overwrite-unpickle-escapes'
 
-N = {'quick': dict(payloads=40, keys=5, rec=64, recx=6, conc=12, users=3, realkills=1),
+N = {'quick': dict(payloads=32, keys=5, rec=52, recx=6, conc=12, users=3, realkills=1),
      'thorough': dict(payloads=600, keys=60, rec=2000, recx=90, conc=500, users=6, realkills=3)}
 
 CORE = [('scalar', 0), ('scalar', 6), ('scalar', 12), ('scalar', 16), ('scalar', 18), ('scalar', 19), ('scalar', 20),
